@@ -210,9 +210,13 @@ def eval_shard(path):
     if not m:
         return None, out
     fails = {}
+    base = 0
+    bm = re.search(r"\(\* BASE (\d+) \*\)", open(path).read()[-600:])
+    if bm:
+        base = int(bm.group(1))
     for e in RES_ENTRY.finditer(m.group(1)):
         codes = [int(re.sub(r"%N", "", x)) for x in e.group(2).split(";") if x.strip()]
-        fails[int(e.group(1))] = codes
+        fails[base + int(e.group(1))] = codes
     nf = re.search(r"NFAIL\s*=\s*(\d+)", out)
     if nf and int(nf.group(1)) != len(fails):
         return None, "result parser lost entries: NFAIL=%s parsed=%d\n%s" % (nf.group(1), len(fails), out[-2000:])
